@@ -18,7 +18,8 @@ def gen_case(rng, i):
     # sensors of one list may be deployed at different angles (read(..., degrees_from_north=[...])): the single-azimuth and
     # RotDpp families must resolve the orientation per record
     mixed_deg = fam in ("saz", "rot", "az") and rng.random() < 0.6
-    recs = [pg.gen_record(rng, n=int(rng.integers(16, 90 if fam != "az" else 40)), dt=d, scale=float(10.0 ** rng.integers(-2, 3)),
+    same_n = int(rng.integers(16, 90 if fam != "az" else 40)) if rng.random() < 0.4 else None     # windows cut from one recording share their length
+    recs = [pg.gen_record(rng, n=(same_n or int(rng.integers(16, 90 if fam != "az" else 40))), dt=d, scale=float(10.0 ** (rng.integers(-2, 3) if rng.random() < 0.7 else rng.integers(-11, -8))),    # counts ... ground velocity in m/s
                           deg=(float(rng.choice([0.0, 10.0, 33.5, 90.0, 180.0, 271.25, 350.0])) if mixed_deg else 0.0)) for d in arrangement]
     max_n = max(len(r["vt"]) for r in recs)
     fft = dict(n=None)
